@@ -8,7 +8,7 @@ Tie       every generated trajectory is saved through Trajectory.save in every f
           (i)   text formats: the model encoder's characters must equal mdtraj's, line by line, and the model
                 decoder must extract round_half_even(x*scale*10^p) from mdtraj's lines (inside coqc);
           (ii)  XTC: the Gallina decoder reads mdtraj's file and must return the quantised integers;
-          (iii) HDF5/NetCDF/NCRST/TRR/DCD: arrays read with PyTables/netCDF4/struct (not mdtraj) must be
+          (iii) HDF5/NetCDF/NCRST/TRR/DCD/DTR: arrays read with PyTables/netCDF4/struct (not mdtraj) must be
                 exactly the float32 numbers in file units, with the unit attributes;
           (iv)  md.load(save(t)) against t with exact rational arithmetic under the stated precision.
 """
@@ -1070,6 +1070,36 @@ def check_raw(ctx, jobs, case, tj, sv, res, mem):
         container(uv, [b for f in fr for b in f["box"]], fr[0]["w"], "box vectors", scale=False)
         if any(f["v_size"] or f["f_size"] for f in fr):
             native("absence of velocities/forces", "present", "absent")
+    elif ext == ".dtr":
+        fr = raw["frames"]
+        if len(fr) != T:
+            native("frame count (timekeys)", len(fr), T)
+            return
+        pos = [f["items"].get("POSITION") for f in fr]
+        if any(p is None or p.get("w") != 32 or len(p["b"]) != 3 * n for p in pos):
+            native("POSITION field (3*n_atoms floats)", [None if p is None else len(p.get("b", [])) for p in pos], 3 * n)
+            return
+        container(flat, [b for p in pos for b in p["b"]], 32, "coordinates (POSITION)")
+        tms = [f["items"].get("CHEMICAL_TIME") for f in fr]
+        got = [None if t is None else fr64(t["b"][0]) for t in tms]
+        keys = [fr64(f["key_time"]) for f in fr]
+        want = [fr64(b) for b in mem["time"]]
+        if got != want or keys != want:
+            native("time (CHEMICAL_TIME field and timekeys record)", [None if g is None else float(g) for g in got], [float(w) for w in want])
+        uvs = mem["uv"] or []
+        for i, f in enumerate(fr):
+            uc = f["items"].get("UNITCELL")
+            if uc is None or len(uc["b"]) != 9:
+                native("UNITCELL field (9 numbers)", uc, 9)
+                return
+            vals = [fr32(b) if uc["w"] == 32 else fr64(b) for b in uc["b"]]
+            for r in range(3):
+                for c in range(3):          # stored[3*r + c] = component r of box vector c, in angstrom
+                    w = fr32(uvs[9 * i + 3 * c + r]) * 10
+                    if abs(vals[3 * r + c] - w) > Fr(1, 10 ** 5) * max(1, abs(w)) + Fr(1, 10 ** 4):
+                        native("unit cell (UNITCELL: box vectors as columns, angstrom)", [float(v) for v in vals],
+                               [float(fr32(b) * 10) for b in uvs[9 * i:9 * i + 9]])
+                        return
     elif ext == ".dcd":
         fr = raw["frames"]
         if len(fr) != T or raw["natoms"] != n or raw["nset_header"] != T:
